@@ -33,6 +33,17 @@ GroupProgs == {NGroup(NVar(""), << Pair(k, v) >>) : k \in KeyExprs, v \in ValExp
                     NGroup(PA(<<NVar(""), NName(kk)>>), << Pair(NCall(NVar("string"), <<NVar("")>>), NVar("")) >>),
                     PA(<<NGroup(NVar(""), << Pair(S, ID) >>), NName(kx)>>) }
 
+\* one item as the whole context (not an array): the same groupings, standalone constructors and constructor steps, with
+\* key collisions between pairs whose earlier value is absent, present, literal or computed
+Nope == PA(<<NName(<<110, 111>>)>>)
+SingleItems == {It(1, sv, tv) : sv \in SVals, tv \in TVals}
+CtorPairs == { << Pair(NStr(ka), Nope), Pair(NStr(ka), K) >>, << Pair(NStr(ka), K), Pair(NStr(ka), Nope) >>, << Pair(NStr(ka), Nope), Pair(NStr(ka), Nope) >>,
+               << Pair(S, Nope), Pair(T, K) >>, << Pair(S, T), Pair(NStr(kx), K) >>, << Pair(NStr(kx), Nope), Pair(S, ID) >>, << Pair(S, ID), Pair(T, Nope) >>,
+               << Pair(S, ID), Pair(NCall(NVar("string"), <<S>>), K) >>, << Pair(NStr(ka), ID), Pair(NStr(kb), Nope), Pair(NStr(ka), K) >>,
+               << Pair(S, ID) >>, << Pair(ID, K) >>, << Pair(NStr(ka), Nope) >> }
+SingleProgs == UNION { { NObject(ps), NGroup(NVar(""), ps), PA(<<NVar(""), NObject(ps)>>), NGroup(NPred(NArray(<<NVar("")>>), <<NNum(IntV(0))>>), ps),
+                         PA(<<NArray(<<NVar(""), NVar("")>>), NObject(ps)>>) } : ps \in CtorPairs }
+
 \* objects for the object functions
 MemVals == {IntV(1), Str(kx), Arr(<<IntV(1), IntV(2)>>), Obj(<< <<ka, IntV(1)>> >>)}
 Keys3 == <<ka, kb, kc>>
@@ -52,9 +63,20 @@ FnProgs == {
     NCall(NVar("merge"), <<NArray(<<NObject(<< Pair(NStr(ka), NNum(IntV(9))) >>), O>>)>>),
     NCall(NVar("keys"), <<NArray(<<O, NObject(<< Pair(NStr(<<122>>), NNum(IntV(9))) >>), O>>)>>),
     NObject(<< Pair(NStr(ka), PA(<<NName(ka)>>)), Pair(NStr(<<110>>), PA(<<NName(<<110, 111>>)>>)) >>),
-    NCall(NVar("type"), <<O>>) }
+    NCall(NVar("type"), <<O>>),
+    \* arrays of objects, with empty objects and non-objects among them
+    NCall(NVar("spread"), <<NArray(<<O, NObject(<<>>), O>>)>>), NCall(NVar("spread"), <<NArray(<<NObject(<<>>), O>>)>>), NCall(NVar("spread"), <<NArray(<<NObject(<<>>)>>)>>),
+    NCall(NVar("count"), <<NCall(NVar("spread"), <<NArray(<<NObject(<<>>), O, NObject(<<>>)>>)>>)>>),
+    NCall(NVar("spread"), <<NArray(<<O, NNum(IntV(1)), NStr(kx)>>)>>), NCall(NVar("spread"), <<NNum(IntV(1))>>),
+    NCall(NVar("merge"), <<NArray(<<NObject(<<>>), O, NObject(<<>>)>>)>>), NCall(NVar("merge"), <<NArray(<<>>)>>), NCall(NVar("merge"), <<O>>),
+    NCall(NVar("keys"), <<NArray(<<NObject(<<>>), O>>)>>), NCall(NVar("keys"), <<NObject(<<>>)>>),
+    NCall(NVar("lookup"), <<NArray(<<O, NObject(<<>>), O>>), NStr(ka)>>), NCall(NVar("lookup"), <<NArray(<<O, NObject(<< Pair(NStr(kb), NNum(IntV(7))) >>)>>), NStr(kb)>>),
+    NCall(NVar("lookup"), <<NArray(<<NObject(<< Pair(NStr(ka), NNum(IntV(1))) >>), NObject(<< Pair(NStr(kb), NNum(IntV(2))) >>)>>), NStr(ka)>>),
+    NCall(NVar("each"), <<NObject(<<>>), NLambda(<<"v">>, NVar("v"))>>), NCall(NVar("sift"), <<NObject(<<>>), NLambda(<<"v">>, NBool(TRUE))>>),
+    NCall(NVar("each"), <<O, NLambda(<<"v", "k", "o">>, NCmpOp("=", NVar("o"), O))>>) }
 
 Init == /\ \/ \E p \in GroupProgs, a \in AllArrays : case = MkCase(p, a)
+           \/ \E p \in GroupProgs \cup SingleProgs, it \in SingleItems : case = MkCase(p, it)
            \/ \E p \in FnProgs, o \in Objs : case = MkCase(p, o)
         /\ out = Pending
 Next == EvaluateCase
@@ -66,7 +88,7 @@ Identities == (out # Pending /\ case.ast.k = "CmpOp" /\ case.ast.op = "=" /\ cas
 \* partition law: with a single pair whose value is the list of ids, every item with a string key lands in exactly one group
 kidv(x) == ObjGet(x, kid)
 Partition ==
-    (out # Pending /\ case.ast = NGroup(NVar(""), << Pair(S, NArray(<<ID>>)) >>) /\ out.o = "val") =>
+    (out # Pending /\ case.ast = NGroup(NVar(""), << Pair(S, NArray(<<ID>>)) >>) /\ case.inp.t = "arr" /\ out.o = "val") =>
         LET ids == SeqConcatAll([i \in 1..Len(out.r.m) |-> out.r.m[i][2].v])
         IN  /\ Len(ids) = Len(case.inp.v)
             /\ \A x \in 1..Len(case.inp.v) : \E y \in 1..Len(ids) : ids[y] = kidv(case.inp.v[x])
